@@ -86,7 +86,7 @@ class C25(Prop):
     props_file = "Props/C25.v"
     preamble = ("From Coq Require Import List QArith ZArith Bool.\nImport ListNotations.\n"
                 "From PP Require Import Model.C25.\nOpen Scope Q_scope.\n")
-    n_cases = (16, 150)
+    n_cases = (20, 150)
     design_ref = "DESIGN.md §5 C25"
     level_text = (
         "Two halves.  (a) Coq theorems (all inputs) over an executable incidence model of "
@@ -110,7 +110,9 @@ class C25(Prop):
         "line/plane; tags = coupled faces; host volume = domain volume) within 1e-9; "
         "C25_certificate_request_sound adds the comparison with what was REQUESTED (fracture-grid "
         "measure = requested fracture length/area, 3-D intersection-line length, host node span = "
-        "domain box, one fracture grid per fracture).  The oracle is the same predicate in numpy.")
+        "domain box, one fracture grid per fracture); C25_certificate_extents_sound adds the "
+        "per-axis extent of every fracture grid = extent of its (snapped) fracture.  The oracle is "
+        "the same predicate in numpy.")
     level_note = (
         "P-core.  NOT proved: gmsh meshing, _assemble_mdg face matching, create_interfaces / "
         "MortarGrid construction, node duplication (duplicate_nodes) and the geometry recomputation "
@@ -131,8 +133,15 @@ class C25(Prop):
             "Cartesian grids on domains not at the origin (repaired in /repo d7e47e835; the old "
             "witness is replayed from the corpus first) [quick]; plus simplex grids "
             "via gmsh (also translated domains) and 1-2 rectangle fractures in 3-D (Cartesian, "
-            "non-dividing, tensor, simplex) [thorough]; every grid is checked against the REQUESTED "
-            "fractures and domain; non-trivial = at least one interface with two sides")
+            "non-dividing, tensor, simplex) [thorough]; in both tiers two of every five cases are "
+            "NON-DYADIC structured grids (10/20/25/50/100 cells over lengths 1, 0.7, 2, 3 on one axis, "
+            "2-D and 3-D, through create_mdg and through meshing.cart_grid directly) whose fracture "
+            "coordinates are decimals k*h (preferring those whose float quotient x*n/L falls just "
+            "below k, e.g. 0.29, 0.57, 0.58 with 100 cells) or off-grid in the lower / upper half of "
+            "a cell; the expected fracture is the request snapped to the NEAREST grid plane per "
+            "coordinate, computed in exact rationals; every grid is checked against the REQUESTED "
+            "(snapped) fractures and domain: plane/line equation, measure, extent per axis; "
+            "non-trivial = at least one interface with two sides")
     trusted = ["gmsh meshing and _assemble_mdg face matching are NOT modelled: their output is validated "
                "per instance by the certificate (conformity checker evaluated in Coq on the real "
                "face_cells / mortar maps, centres, normals, measures converted exactly to Q, tolerance "
@@ -304,10 +313,109 @@ class C25(Prop):
         return {"kind": "mdg", "grid": grid, "mode": mode, "dim": 3,
                 "box": [[xs[0], xs[-1]], [ys[0], ys[-1]], [zs[0], zs[-1]]], "args": args, "fracs": fr}
 
+    # -- non-dyadic structured grids: n cells over lengths like 1, 0.7, 3; fracture coordinates
+    #    k*h as DECIMALS (0.29, 0.57, ...) and off-grid coordinates in the lower / upper half of
+    #    a cell.  Documented behaviour: every vertex snaps to the NEAREST grid plane / node.
+    #    Coordinates are kept as exact rationals ("num/den"); the implementation gets their floats.
+    def _dec_coord(self, rng, n, L, lo=1, hi=None):
+        """a coordinate on an axis with n cells over length L: (string, snapped index)"""
+        hi = n - 1 if hi is None else hi
+        h = F(L) / n
+        r = rng.random()
+        bad = [k for k in range(lo, hi + 1) if int(float(k * h) * n / float(F(L))) != k]
+        k, x = rng.randint(lo, hi), None
+        if r < 0.45 and bad:
+            k = rng.choice(bad)                  # on a plane, float quotient just below k
+        elif r < 0.75:                           # upper half of cell k-1 -> snaps up to k
+            x = (k - F(rng.choice([2, 3, 4]), 10)) * h
+        elif r < 0.9:                            # lower half of cell k -> snaps down to k
+            x = (k + F(rng.choice([2, 3, 4]), 10)) * h
+        x = k * h if x is None else x
+        return f"{x.numerator}/{x.denominator}", k
+
+    def _gen_dec(self, rng, dim):
+        big = rng.choice([10, 20, 25, 50, 100] if dim == 3 else [10, 20, 25, 50])
+        Ls = ["1", "7/10", "3", "2", "1"]
+        axes = list(range(dim))
+        ax = rng.choice(axes)                    # the finely resolved axis = normal of fracture 1
+        n = [rng.randint(2, 4) if dim == 3 else rng.randint(3, 6) for _ in axes]
+        n[ax] = big
+        L = [rng.choice(Ls) for _ in axes]
+        fr, idx = [], []
+
+        def rect(normal):
+            """an axis-aligned fracture with the given normal axis: per axis (lo, hi) strings"""
+            span, span_i = [], []
+            for a in axes:
+                if a == normal:
+                    c, k = self._dec_coord(rng, n[a], L[a])
+                    span.append((c, c)); span_i.append((k, k))
+                else:
+                    k0 = rng.randint(0, n[a] - 2)
+                    k1 = rng.randint(k0 + 1 if n[a] - k0 < 3 else k0 + 2, n[a]) if n[a] - k0 >= 2 else n[a]
+                    c0, k0 = (self._dec_coord(rng, n[a], L[a], k0, k0) if 0 < k0 else ("0/1", 0))
+                    h = F(L[a]) / n[a]
+                    c1 = (k1 * h)
+                    c1s = f"{c1.numerator}/{c1.denominator}"
+                    span.append((c0, c1s)); span_i.append((k0, k1))
+            return span, span_i
+
+        normals = [ax]
+        if rng.random() < 0.4:
+            normals.append(rng.choice([a for a in axes if a != ax]))
+        spans = [rect(nm) for nm in normals]
+        if len(spans) == 2:
+            # make the two cross: each spans the other's normal coordinate
+            (s1, i1), (s2, i2) = spans
+            a1, a2 = normals
+            if not (i2[a1][0] < i1[a1][0] < i2[a1][1] and i1[a2][0] < i2[a2][0] < i1[a2][1]):
+                spans = spans[:1]
+        for sp, _ in spans:
+            if dim == 2:
+                fr.append([[sp[0][0], sp[1][0]], [sp[0][1], sp[1][1]]])
+            else:
+                nm = [a for a in axes if sp[a][0] == sp[a][1]][0]
+                u, v = [a for a in axes if a != nm]
+                pts = []
+                for cu, cv in ((0, 0), (1, 0), (1, 1), (0, 1)):
+                    q = [None] * 3
+                    q[nm] = sp[nm][0]; q[u] = sp[u][cu]; q[v] = sp[v][cv]
+                    pts.append(q)
+                fr.append(pts)
+        box = [[0.0, float(F(l))] for l in L]
+        api = rng.choice(["cart_grid", "create_mdg", "create_mdg"])
+        args = {k: float(F(l)) / m for k, l, m in zip(["cell_size_x", "cell_size_y", "cell_size_z"], L, n)}
+        return {"kind": "mdg", "grid": "cartesian", "mode": "cart_dec", "dim": dim, "api": api,
+                "n": n, "L": L, "box": box, "args": args, "fracs_dec": fr,
+                "fracs": [[[float(F(c)) for c in p] for p in f] for f in fr]}
+
+    @staticmethod
+    def _expected_fracs(case):
+        """the fractures the grids must discretise: as requested, or (structured grids with
+        off-grid vertices) snapped to the nearest grid plane per coordinate, computed exactly"""
+        if case.get("mode") != "cart_dec":
+            return case["fracs"]
+        out = []
+        for f in case["fracs_dec"]:
+            pts = []
+            for p in f:
+                q = []
+                for c, n, L in zip(p, case["n"], case["L"]):
+                    h = F(L) / n
+                    k = (F(c) / h + F(1, 2)).__floor__()
+                    q.append(float(k * h))
+                pts.append(q)
+            out.append(pts)
+        return out
+
     def generate(self, rng, n, tier):
         for it in range(n):
             r = rng.random()
-            if tier == "quick":
+            if it % 5 == 1:
+                yield self._gen_dec(rng, 3)
+            elif it % 5 == 3:
+                yield self._gen_dec(rng, 2)
+            elif tier == "quick":
                 if r < 0.3:
                     yield self._gen_split(rng)
                 else:
@@ -368,7 +476,8 @@ class C25(Prop):
         """measure of every requested fracture, and (3-D, two axis-aligned rectangles) the
         length of their intersection line"""
         out = []
-        for f in case["fracs"]:
+        fracs = C25._expected_fracs(case)
+        for f in fracs:
             P = np.array(f, dtype=float)
             if case["dim"] == 2:
                 out.append(float(np.linalg.norm(P[1] - P[0])))
@@ -376,7 +485,7 @@ class C25(Prop):
                 out.append(float(np.linalg.norm(np.cross(P[1] - P[0], P[3] - P[0]))))
         line = None
         if case["dim"] == 3 and len(case["fracs"]) == 2:
-            A, B = (np.array(f, dtype=float) for f in case["fracs"])
+            A, B = (np.array(f, dtype=float) for f in fracs)
             lo = np.maximum(A.min(axis=0), B.min(axis=0))
             hi = np.minimum(A.max(axis=0), B.max(axis=0))
             if np.all(hi >= lo):
@@ -387,16 +496,24 @@ class C25(Prop):
         net, meas = self._network(case)
         args = {k: (np.array(v, dtype=float) if isinstance(v, list) else v)
                 for k, v in case["args"].items()}
+        expected = self._expected_fracs(case)
         with warnings.catch_warnings():
             warnings.simplefilter("ignore")
             try:
-                mdg = pp.create_mdg(case["grid"], args, net)
+                if case.get("api") == "cart_grid":
+                    mdg = pp.meshing.cart_grid(
+                        [np.array(f, dtype=float).T for f in case["fracs"]], np.array(case["n"]),
+                        physdims=np.array([b[1] for b in case["box"]]))
+                else:
+                    mdg = pp.create_mdg(case["grid"], args, net)
             except (AssertionError, ValueError, IndexError) as e:
                 # meshing must not fail on these inputs; recorded so that the oracle reports it
                 # with the input (a regression of the repaired lower-corner handling did this)
                 return {"raised": type(e).__name__}
         top = mdg.dim_max()
         ifaces = []
+        iface_hosts = []
+        host_ids = []
         coupled = {}
         for intf, d in mdg.interfaces(return_data=True):
             h, l = mdg.interface_to_subdomain_pair(intf)
@@ -430,13 +547,14 @@ class C25(Prop):
             pts = []
             if l.dim == top - 1:
                 fn = int(l.frac_num)
-                P = np.asarray(net.fractures[fn].pts, dtype=float)
+                P = np.asarray(expected[fn], dtype=float).T
                 if top == 2:
                     frac = ["line", [P[0, 0], P[1, 0], 0.0], [P[0, 1], P[1, 1], 0.0]]
                 else:
                     frac = ["plane", P[:, 0].tolist(), P[:, 1].tolist(), P[:, 2].tolist()]
                 pts = [l.cell_centers[:, c].tolist() for c in range(l.num_cells)] + \
                       [l.nodes[:, k].tolist() for k in range(l.num_nodes)]
+            iface_hosts.append(id(h))
             ifaces.append({"sides": int(intf.num_sides()), "cells": cells, "mortar": mortar,
                            "frac": frac, "pts": pts, "dims": [h.dim, l.dim]})
         hosts = []
@@ -444,9 +562,11 @@ class C25(Prop):
         bbox = []
         req_f, req_line = self._requested_measures(case)
         meas_req = []      # (cell volumes of a lower-dimensional grid, requested measure)
+        ext = []           # (node span of a fracture grid per axis, span of its fracture per axis)
         lines = [sd for sd in mdg.subdomains() if sd.dim == top - 2 and top == 3]
         for sd in mdg.subdomains():
             if sd.dim >= 1:
+                host_ids.append(id(sd))
                 hosts.append([[int(f) for f in np.flatnonzero(sd.tags["fracture_faces"])],
                               sorted(coupled.get(id(sd), set()))])
             if sd.dim == top:
@@ -454,12 +574,29 @@ class C25(Prop):
                 bbox = [[float(sd.nodes[k].min()), float(sd.nodes[k].max())] for k in range(top)]
             if sd.dim == top - 1:
                 meas_req.append([[float(v) for v in sd.cell_volumes], req_f[int(sd.frac_num)]])
+                E = np.asarray(expected[int(sd.frac_num)], dtype=float)
+                ext.append([[[float(sd.nodes[k].min()), float(sd.nodes[k].max())] for k in range(top)],
+                            [[float(E[:, k].min()), float(E[:, k].max())] for k in range(top)]])
         if top == 3 and len(case["fracs"]) == 2:
             tot = [float(v) for sd in lines for v in sd.cell_volumes]
             meas_req.append([tot, req_line if req_line is not None else 0.0])
         nfr = sum(1 for sd in mdg.subdomains() if sd.dim == top - 1)
+        # Host face numbers are only compared for equality: relabel them, per host grid, by their
+        # rank among the faces that occur (tagged or coupled), so that no large index reaches Coq.
+        rank = {}
+        for hid, (tagged, coup) in zip(host_ids, hosts):
+            rank[hid] = {f: r for r, f in enumerate(sorted(set(tagged) | set(coup)))}
+        for it, hid in zip(ifaces, iface_hosts):
+            rk = rank[hid]
+            for c in it["cells"]:
+                for f in c["faces"]:
+                    f["id"] = rk[f["id"]]
+            for m in it["mortar"]:
+                m["face"] = [[rk.get(j, len(rk) + j), v] for j, v in m["face"]]
+        hosts = [[[rank[hid][f] for f in tagged], [rank[hid][f] for f in coup]]
+                 for hid, (tagged, coup) in zip(host_ids, hosts)]
         return {"ifaces": ifaces, "hosts": hosts, "vols": vols, "domain": float(meas),
-                "bbox": bbox, "meas": meas_req, "nfrac": nfr}
+                "bbox": bbox, "meas": meas_req, "nfrac": nfr, "ext": ext}
 
     def run_impl(self, case):
         if case["kind"] == "split":
@@ -537,6 +674,10 @@ class C25(Prop):
                 return f"host grid spans {res['bbox']}, the domain is {case['box']}"
         if res["nfrac"] != len(case["fracs"]):
             return f"fracture grids: {res['nfrac']} for {len(case['fracs'])} requested fractures"
+        for got, want in res["ext"]:
+            for (lo, hi), (wlo, whi) in zip(got, want):
+                if not near(lo, wlo) or not near(hi, whi):
+                    return f"fracture grid spans {got}, its (snapped) fracture spans {want}"
         for vols, want in res["meas"]:
             if not near(sum(vols), want):
                 return f"fracture grid of measure {sum(vols)} for a requested fracture (or intersection) of measure {want}"
@@ -587,7 +728,9 @@ class C25(Prop):
                f"{clist(res['bbox'], lambda b: f'({cq(b[0])}, {cq(b[1])})')} "
                f"{clist(case['box'], lambda b: f'({cq(b[0])}, {cq(b[1])})')} "
                f"{_nat(res['nfrac'])} {_nat(len(case['fracs']))})")
-        return f"conform_req {mdgd} {req}"
+        span = lambda l: clist(l, lambda b: f"({cq(b[0])}, {cq(b[1])})")
+        ext = clist(res["ext"], lambda e: f"({span(e[0])}, {span(e[1])})")
+        return f"conform_req3 {mdgd} {req} {ext}"
 
     def nontrivial(self, case, res):
         if case["kind"] == "split":
